@@ -249,7 +249,7 @@ def fmt_date(rng, kind, day):
     return kind, [kind]  # today / tomorrow
 
 
-def mk_expr(rng, target, now, su, allow_sun=True, kinds=None):
+def mk_expr(rng, target, now, su, allow_sun=True, kinds=None, allow_off=True, allow_feb29=False):
     """An expression that (for a suitable day) denotes the instant `target`; -> dict(str, date, time, off).
     `now` is only used to decide which relative date forms can denote the target's day."""
     tday = target.date()
@@ -266,7 +266,7 @@ def mk_expr(rng, target, now, su, allow_sun=True, kinds=None):
     dk = rng.choice(cands)
     # offset: keep the base time inside the target's day where a date is named
     off_us = 0
-    if rng.random() < 0.35:
+    if allow_off and rng.random() < 0.35:
         off_us = rng.choice([1, -1]) * rng.choice([10 ** 6, 30 * 10 ** 6, 90 * 10 ** 6, 5 * 60 * 10 ** 6, 3600 * 10 ** 6, 5400 * 10 ** 6,
                                                    86400 * 10 ** 6, 2 * 86400 * 10 ** 6, 7 * 86400 * 10 ** 6, 500000, 1500])
     base = target - dt.timedelta(microseconds=off_us)
@@ -289,7 +289,7 @@ def mk_expr(rng, target, now, su, allow_sun=True, kinds=None):
             dk = "full"
         if dk == "dow" and not 0 <= (bday - nday).days < 7:
             dk = "full"
-        if dk == "md" and (bday.month, bday.day) == (2, 29):
+        if dk == "md" and (bday.month, bday.day) == (2, 29) and not allow_feb29:
             dk = "full"
         dtxt, dp = fmt_date(rng, dk, bday)
     if not dtxt and not ttxt:
@@ -384,7 +384,7 @@ def mk_spec(rng, target, now, su, kind=None):
     """a specification denoting `target` (at least for suitable days) -> spec dict"""
     kind = kind or rng.choice(["once", "once", "period", "period", "pclosed", "cron", "now", "sun"])
     if kind == "once":
-        e = mk_expr(rng, target, now, su)
+        e = mk_expr(rng, target, now, su, allow_feb29=True)     # once(2/29 ...): finding D65 in years without that day
         return {"kind": "once", "str": f"once({e['str']})", "e": e}
     if kind == "now":
         off = to_us(target) - to_us(su)
@@ -487,7 +487,21 @@ NEAR = [0, 1, -1, 2, -2, 10 ** 6, -10 ** 6, 999999, 60 * 10 ** 6, -60 * 10 ** 6,
         86400 * 10 ** 6, -86400 * 10 ** 6, 86400 * 10 ** 6 + 1, -86400 * 10 ** 6 - 1, 7 * 86400 * 10 ** 6]
 
 
+def gen_feb29_case(rng):
+    """once(2/29 ...) at a random current time of the window (2024 has the day, 2025 does not: finding D65)"""
+    target = D(2024, 2, 29, rng.randint(0, 23), rng.choice([0, 30, 59]))
+    now = rand_instant(rng) if rng.random() < 0.7 else target + dt.timedelta(microseconds=rng.choice(NEAR))
+    su = now - dt.timedelta(microseconds=rng.choice([0, 1, 10 ** 6, 86400 * 10 ** 6]))
+    e = mk_expr(rng, target, target, su, kinds=["md"], allow_feb29=True)
+    specs = [{"kind": "once", "str": f"once({e['str']})", "e": e}]
+    if rng.random() < 0.4:
+        specs.insert(rng.randint(0, 1), mk_spec(rng, now + dt.timedelta(hours=1), now, su, kind=rng.choice(["once", "cron", "period"])))
+    return {"specs": specs, "now": to_us(now), "su": to_us(su)}
+
+
 def gen_next_case(rng):
+    if rng.random() < 0.012:
+        return gen_feb29_case(rng)
     target = pick_anchor(rng)
     r = rng.random()
     if r < 0.55:
@@ -570,7 +584,7 @@ def q_sun(tbl):
 
 
 SWITCHES = [("d_period_wallclock", "D60"), ("d_once_md_this_year", "D61"), ("d_float_floor", "D63"),
-            ("d_su_coincidence", "D64"), ("d_newsub_adj_recheck", None), ("d_legacy_gap_recheck", None)]
+            ("d_su_coincidence", "D64"), ("d_md_invalid_raises", "D65"), ("d_newsub_adj_recheck", None), ("d_legacy_gap_recheck", None)]
 
 
 def spec_features(s):
@@ -654,8 +668,8 @@ DST_BASES = [D(2024, 3, 9, 22, 0), D(2024, 11, 2, 22, 0), D(2025, 3, 8, 23, 30),
 MIN = 60 * 10 ** 6
 
 
-def _expr_at(rng, inst, kinds):
-    return mk_expr(rng, inst, inst, inst, kinds=kinds)
+def _expr_at(rng, inst, kinds, allow_off=True):
+    return mk_expr(rng, inst, inst, inst, kinds=kinds, allow_off=allow_off)
 
 
 def gen_run_scenario(rng, idx):
@@ -703,8 +717,8 @@ def gen_run_scenario(rng, idx):
         t1 = loc.replace(second=0, microsecond=0) + dt.timedelta(minutes=rng.choice([1, 2, 10]))
         pus = rng.choice([60, 120, 300]) * 10 ** 6
         n = rng.randint(1, 5)
-        es = _expr_at(rng, t1, ["none"])
-        ee = _expr_at(rng, t1 + dt.timedelta(microseconds=n * pus + rng.choice([0, 30 * 10 ** 6])), ["none"])
+        es = _expr_at(rng, t1, ["none"], allow_off=False)        # offsets of days would make the window days long
+        ee = _expr_at(rng, t1 + dt.timedelta(microseconds=n * pus + rng.choice([0, 30 * 10 ** 6])), ["none"], allow_off=False)
         ptxt, pam, _ = mk_amount(rng, pus)
         specs.append({"kind": "period", "str": f"period({es['str']}, {ptxt}, {ee['str']})", "s": es, "iv": pam, "e": ee})
         horizon = rng.choice([3600, 86400 + 3600])
@@ -929,7 +943,7 @@ class C06(Prop):
         "weekday names, today and tomorrow are read relative to the current time (the reading under which the code conforms); "
         "month/day in once() is read as 'every year' (documentation), which the code violates (D61)",
         "generator: current times 2024-01-01..2025-12-31, zone America/New_York, English weekday names, lower-case units, "
-        "no degenerate cron ranges N-N (croniter 6.2.4 expands them to '*'), no month/day 2/29 (datetime() raises in common years)",
+        "no degenerate cron ranges N-N (croniter 6.2.4 expands them to '*'); month/day 2/29 only inside once() (finding D65)",
     ]
     partial_note = ("proved about the model: successor property of once()/period()/lists, cron and sunrise/sunset through contracts; only "
                     "validated against the running code: regex parsing, croniter, astral, zoneinfo data, float rounding, real sleeping "
@@ -951,7 +965,7 @@ MANIFEST_ENTRY = {
                    "and whose results are compared inside Coq with the real code on generated (string, parsed form) pairs around DST days, "
                    "leap day, month/year ends and +-1 us of every anchor instant; running triggers (both subsystems) are checked to run once "
                    "per instant with trigger_time equal to it, startup/shutdown once. Six deviations of the unchanged code are listed as "
-                   "known findings (D60-D64, D66)."),
+                   "known findings (D60-D66)."),
     "level_note": ("Trusted: Coq kernel+vm_compute; hand-written model of the two functions; generator/drivers in /verif/harness; croniter, "
                    "astral, zoneinfo enter as data/contracts; float arithmetic is compared with the exact model, not modelled."),
     "design_ref": "DESIGN.md §4 C06",
